@@ -11,7 +11,12 @@ Q(j) == [s |-> j.s, n |-> Lim(j.n), d |-> Lim(j.d)]
 Tab(rows) == {<<rows[k].f, rows[k].t, Q(rows[k].fac), Q(rows[k].off)>> : k \in DOMAIN rows}
 IsErr(o, cls) == o.st = "err" /\ cls \in SeqRange(o.mro)
 \* expected amount of (a in u) expressed in v
-Exp(ev, a, u, v) == IF ev.table = "temp" THEN TempRef(a, u, v) ELSE AffConv(Tab(ev.rows), a, u, v)
+\* "user2": a second table converter (rows2) registered after the first on the same type - converters are
+\* consulted most-recent-first and the first one that knows the pair answers (C12), the older one otherwise
+Exp(ev, a, u, v) == IF ev.table = "temp" THEN TempRef(a, u, v)
+                    ELSE IF ev.table = "user2" /\ AffConv(Tab(ev.rows2), a, u, v) # NoQ
+                         THEN AffConv(Tab(ev.rows2), a, u, v)
+                    ELSE AffConv(Tab(ev.rows), a, u, v)
 Cmp(c, x, y) == CASE c = "lt" -> QLess(x, y) [] c = "le" -> QLeq(x, y) [] c = "gt" -> QLess(y, x)
                   [] c = "ge" -> QLeq(y, x) [] c = "eq" -> QEqv(x, y) [] c = "ne" -> ~QEqv(x, y)
 Judge(ev) ==
